@@ -114,6 +114,21 @@ def render_py(rng, spec, out: Lines):
             "has_noise": any(k != "code" for k in out.kinds[start:])}
 
 
+def _c_comment(rng, out: Lines, ind: str, n: int):
+    """A comment above a member in any of the spellings of a brace language: line comment, one-line block, multi-line (doc) block."""
+    r = rng.random()
+    if r < 0.4:
+        out.comment("%s// note about member %d" % (ind, n))
+    elif r < 0.6:
+        out.comment("%s/* note about member %d */" % (ind, n))
+    else:
+        out.comment("%s/**" % ind)
+        out.comment("%s * Note about member %d," % (ind, n))
+        if rng.random() < 0.5:
+            out.comment("%s * on two lines." % ind)
+        out.comment("%s */" % ind)
+
+
 def render_ts(rng, spec, out: Lines, js=False):
     # every way of writing a class is a class: plain, exported, abstract (ts), named class expression
     form = rng.choice(["plain", "plain", "export", "expr"] + ([] if js else ["abstract", "export-abstract"]))
@@ -134,7 +149,7 @@ def render_ts(rng, spec, out: Lines, js=False):
         if spec["noise"] and rng.random() < 0.5:
             out.blank()
         if spec["noise"] and rng.random() < 0.3:
-            out.comment("  // note about member %d" % n)
+            _c_comment(rng, out, "  ", n)
         if kind in ("public", "classmethod"):
             out.code("  act_%d(a%s)%s {" % (n, ty(": number"), ty(": number")))
         elif kind == "async":
@@ -194,7 +209,7 @@ def render_rs(rng, spec, out: Lines):
         if spec["noise"] and rng.random() < 0.5:
             out.blank()
         if spec["noise"] and rng.random() < 0.3:
-            out.comment("    // note about member %d" % n)
+            _c_comment(rng, out, "    ", n)
         if kind in ("public", "classmethod", "async"):
             out.code("    pub %sfn act_%d(&self, a: i64) -> i64 {" % ("async " if kind == "async" else "", n))
         elif kind == "static":
@@ -207,7 +222,8 @@ def render_rs(rng, spec, out: Lines):
     if have < spec["loc_target"]:
         if spec["loc_target"] - have >= 3:
             out.code("    fn _filler(&self, a: i64) -> i64 {")
-            _pad(out, lambda i: "        let a = a + self.base + pad_%d;" % i, spec["loc_target"] - 3, start)
+            # (every other filler line is a dereferencing statement: a code line that starts with a star)
+            _pad(out, lambda i: ("        *hits_%d += a;" if i % 2 else "        let a = a + self.base + pad_%d;") % i, spec["loc_target"] - 3, start)
             out.code("        a")
             out.code("    }")
     out.code("}")
